@@ -89,18 +89,18 @@ Definition get_map (a : answer) : option smap := match a with AMap m => m | _ =>
 Definition get_hash (a : answer) : list hev := match a with AHash h => h | _ => [] end.
 Definition get_events (a : answer) : list event := match a with AStream e _ => e | _ => [] end.
 
-(* final_ops = [OSrc; OBuf; OMap true; OMap false; OStream true false; OStream false false; OHash] *)
+(* final_ops = [OHash; OSrc; OBuf; OMap true; OMap false; OStream true false; OStream false false; OHash] *)
 Definition nth_ans (l : list answer) (i : nat) : answer := nth i l ANone.
 
 (* observational equality: text, buffer and attribution of map() (both column settings) *)
 Definition obs_equiv (a b : list answer) : N :=
-  let t := get_text (nth_ans a 0) in
-  if negb (text_eqb t (get_text (nth_ans b 0))) then 1
-  else if negb (text_eqb (get_text (nth_ans a 1)) (get_text (nth_ans b 1))) then 2
-  else if negb (list_eqb_attr attr_eqb (attr_of_map (get_map (nth_ans a 2)) t true)
-                                        (attr_of_map (get_map (nth_ans b 2)) t true)) then 3
-  else if negb (list_eqb_attr attr_eqb_fl (attr_of_map (get_map (nth_ans a 3)) t false)
-                                           (attr_of_map (get_map (nth_ans b 3)) t false)) then 4
+  let t := get_text (nth_ans a 1) in
+  if negb (text_eqb t (get_text (nth_ans b 1))) then 1
+  else if negb (text_eqb (get_text (nth_ans a 2)) (get_text (nth_ans b 2))) then 2
+  else if negb (list_eqb_attr attr_eqb (attr_of_map (get_map (nth_ans a 3)) t true)
+                                        (attr_of_map (get_map (nth_ans b 3)) t true)) then 3
+  else if negb (list_eqb_attr attr_eqb_fl (attr_of_map (get_map (nth_ans a 4)) t false)
+                                           (attr_of_map (get_map (nth_ans b 4)) t false)) then 4
   else 0.
 
 (* C13: both sides of a composition law behave alike.  relaxed = the law compares columns only up
@@ -111,14 +111,14 @@ Definition loc_ref (a b : loc) : bool :=   (* a refines b *)
 
 Definition chk_C13 (a b : src) (relaxed : bool) (o : pair_obs) : N :=
   if negb (treeA a && treeA b) then 100 else
-  let t := get_text (nth_ans (po_a o) 0) in
+  let t := get_text (nth_ans (po_a o) 1) in
   let r :=
     if relaxed then
-      if negb (text_eqb t (get_text (nth_ans (po_b o) 0))) then 1
-      else if negb (list_eqb_attr (opt_eqb loc_ref) (attr_of_map (get_map (nth_ans (po_a o) 2)) t true)
-                                                    (attr_of_map (get_map (nth_ans (po_b o) 2)) t true)) then 3
-      else if negb (list_eqb_attr attr_eqb_fl (attr_of_map (get_map (nth_ans (po_a o) 3)) t false)
-                                               (attr_of_map (get_map (nth_ans (po_b o) 3)) t false)) then 4
+      if negb (text_eqb t (get_text (nth_ans (po_b o) 1))) then 1
+      else if negb (list_eqb_attr (opt_eqb loc_ref) (attr_of_map (get_map (nth_ans (po_a o) 3)) t true)
+                                                    (attr_of_map (get_map (nth_ans (po_b o) 3)) t true)) then 3
+      else if negb (list_eqb_attr attr_eqb_fl (attr_of_map (get_map (nth_ans (po_a o) 4)) t false)
+                                               (attr_of_map (get_map (nth_ans (po_b o) 4)) t false)) then 4
       else 0
     else obs_equiv (po_a o) (po_b o) in
   match r with
@@ -130,12 +130,17 @@ Definition chk_C13 (a b : src) (relaxed : bool) (o : pair_obs) : N :=
 Definition chk_C14_pair (a b : src) (o : pair_obs) : N :=
   if negb (tree_wf a && tree_wf b) then 100
   else if negb (Bool.eqb (po_eq o) (po_eqr o)) then 1
+  (* equality does not change because observers were called or caches were filled *)
+  else if negb (Bool.eqb (po_eq0 o) (po_eq o)) then 5
+  (* the hash of an unchanged value does not change because observers were called on it *)
+  else if negb (hevs_eqb (get_hash (nth_ans (po_a o) 0)) (get_hash (nth_ans (po_a o) 7))
+                && hevs_eqb (get_hash (nth_ans (po_b o) 0)) (get_hash (nth_ans (po_b o) 7))) then 4
   else if po_eq o then
-    if negb (hevs_eqb (get_hash (nth_ans (po_a o) 6)) (get_hash (nth_ans (po_b o) 6))) then 2
+    if negb (hevs_eqb (get_hash (nth_ans (po_a o) 0)) (get_hash (nth_ans (po_b o) 0))) then 2
     else if negb (treeA a && treeA b) then
       (* non-ASCII: text views only *)
-      (if text_eqb (get_text (nth_ans (po_a o) 0)) (get_text (nth_ans (po_b o) 0))
-          && text_eqb (get_text (nth_ans (po_a o) 1)) (get_text (nth_ans (po_b o) 1)) then 0 else 3)
+      (if text_eqb (get_text (nth_ans (po_a o) 1)) (get_text (nth_ans (po_b o) 1))
+          && text_eqb (get_text (nth_ans (po_a o) 2)) (get_text (nth_ans (po_b o) 2)) then 0 else 3)
     else match obs_equiv (po_a o) (po_b o) with
          | 0 => 0
          | k => if k2_shape a || k2_shape b then 52 else 10 + k
@@ -157,15 +162,21 @@ Definition maps_differ (x y : option smap) : bool := negb (opt_eqb smap_eqb x y)
 
 Definition chk_C20_pair (a b : src) (o : pair_obs) : N :=
   if negb (tree_wf a && tree_wf b) then 100
-  else if src_eqb (erase_sms_names a) (erase_sms_names b) then (if src_eqb a b then 0 else 100)
+  else if src_eqb (erase_sms_names a) (erase_sms_names b) then
+    (if src_eqb a b then
+       (* the same tree: the same hash in every object, whatever observers ran before *)
+       (if hevs_eqb (get_hash (nth_ans (po_a o) 0)) (get_hash (nth_ans (po_b o) 0))
+           && hevs_eqb (get_hash (nth_ans (po_a o) 0)) (get_hash (nth_ans (po_a o) 7))
+           && hevs_eqb (get_hash (nth_ans (po_b o) 0)) (get_hash (nth_ans (po_b o) 7)) then 0 else 3)
+     else 100)
   else
     let differ :=
-      negb (text_eqb (get_text (nth_ans (po_a o) 0)) (get_text (nth_ans (po_b o) 0)))
-      || negb (text_eqb (get_text (nth_ans (po_a o) 1)) (get_text (nth_ans (po_b o) 1)))
-      || maps_differ (get_map (nth_ans (po_a o) 2)) (get_map (nth_ans (po_b o) 2))
-      || maps_differ (get_map (nth_ans (po_a o) 3)) (get_map (nth_ans (po_b o) 3)) in
+      negb (text_eqb (get_text (nth_ans (po_a o) 1)) (get_text (nth_ans (po_b o) 1)))
+      || negb (text_eqb (get_text (nth_ans (po_a o) 2)) (get_text (nth_ans (po_b o) 2)))
+      || maps_differ (get_map (nth_ans (po_a o) 3)) (get_map (nth_ans (po_b o) 3))
+      || maps_differ (get_map (nth_ans (po_a o) 4)) (get_map (nth_ans (po_b o) 4)) in
     if differ then
-      if hevs_eqb (get_hash (nth_ans (po_a o) 6)) (get_hash (nth_ans (po_b o) 6)) then
+      if hevs_eqb (get_hash (nth_ans (po_a o) 0)) (get_hash (nth_ans (po_b o) 0)) then
         (* K6: the ingredient sequences fed to the hasher coincide by design - a ConcatSource
            does not delimit its children *)
         (if hevs_eqb (hash_events a) (hash_events b) then 56 else 1)
